@@ -28,6 +28,8 @@ for p in props:
     pid = p["id"]
     try:
         mod = importlib.import_module("vlib.props." + pid.lower())
+        if not hasattr(mod, "LEVEL_TEXT") or not all(os.path.exists(os.path.join(ROOT, "coq", t[:-3] + ".v")) for t in mod.PROPS):
+            raise ModuleNotFoundError(pid)  # work in progress: not claimed until it has theorems and a level statement
     except ModuleNotFoundError:
         na.append({"property_id": pid, "reason": NA_REASON.get(pid, "not reached yet: no Coq model/correspondence built for it in this round; not claimed")})
         continue
